@@ -622,6 +622,45 @@ impl TickerHandle {
                     ("C05-tick-inner-requests-a-draw-unless-a-ticker-runs",
                      "if old(self).ticker.installed() { final(self).state == old(self).state } "
                      "else { drew(old(self).state.draw_target, final(self).state.draw_target, old(self).state.state.finished(), now, frame_of(final(self).state)) }")]),
+        # public entry points that were only hash-pinned before (pins_bar): now under contract
+        Fn("src/progress_bar.rs", "ProgressBar", "tick", sig_rewrites=[K.SELF_MUT],
+           proofs=[(r"self\.tick_inner\(Instant::now\(\)\);", "at", """let __now = Instant::now();
+        self.tick_inner(__now);
+        proof { assert(time_ok(__now)); }""")],
+           requires=[("target-wf", "old(self).state.draw_target.wf2()")],
+           ensures=[("target-wf", "final(self).state.draw_target.wf2()"),
+                    ("C05-C07-position-untouched", "final(self).pos == old(self).pos"),
+                    ("C05-tick-requests-a-draw-unless-a-ticker-runs",
+                     "if old(self).ticker.installed() { final(self).state == old(self).state } "
+                     "else { exists|now: Instant| #[trigger] time_ok(now) && drew(old(self).state.draw_target, final(self).state.draw_target, old(self).state.state.finished(), now, frame_of(final(self).state)) }")]),
+        Fn("src/progress_bar.rs", "ProgressBar", "println", sig_rewrites=[K.SELF_MUT, Rw("R15", r"<I: AsRef<str>>", ""), Rw("R15", r"msg: I", "msg: &str")],
+           rewrites=[Rw("R2", r"self\.state\(\)", "self.state", count=1), Rw("R15", r"msg\.as_ref\(\)", "msg")],
+           proofs=[(r"self\.state\.println\(Instant::now\(\), msg\);", "at", """let __now = Instant::now();
+        self.state.println(__now, msg);
+        proof { assert(time_ok(__now)); }""")],
+           requires=[("target-wf", "old(self).state.draw_target.wf2()")],
+           ensures=[("target-wf", "final(self).state.draw_target.wf2()"),
+                    ("C05-C07-position-untouched", "final(self).pos == old(self).pos"),
+                    ("frame-rest", "rest_same(old(self).state, final(self).state)"),
+                    ("C03-C06-println-effect",
+                     "exists|now: Instant| #[trigger] time_ok(now) && drew(old(self).state.draw_target, final(self).state.draw_target, true, now, "
+                     "(if text_lines_of(msg@).len() == 0 { seq![LineType::Empty] } else { text_lines_of(msg@) }) + frame_of(old(self).state))")]),
+        Fn("src/progress_bar.rs", "ProgressBar", "is_hidden", ret="r",
+           rewrites=[Rw("R2", r"self\.state\(\)", "self.state", count="any")],
+           ensures=[("C06-is-hidden", "r == self.state.draw_target.hidden()", ["C06"])]),
+        Fn("src/draw_target.rs", "ProgressDrawTarget", "hidden", ret="r", rename="hidden_target",   # the spec fn hidden() has the name already
+           ensures=[("C06-hidden-target-is-hidden", "r.kind is Hidden && r.hidden() && r.ops() == 0 && r.wf2()", ["C06"])]),
+        Fn("src/draw_target.rs", "ProgressDrawTarget", "set_move_cursor",
+           ensures=[("other-kinds-untouched", "!(old(self).kind is Term || old(self).kind is TermLike) ==> *final(self) == *old(self)"),
+                    ("same-kind", "final(self).same_kind(*old(self)) && final(self).ops() == old(self).ops() && (old(self).wf2() ==> final(self).wf2())"),
+                    ("C01-C03-only-the-cursor-mode-changes",
+                     "old(self).own() matches Some(x) ==> (final(self).own() matches Some(y) && y.0 == x.0 && y.1 == x.1 && y.2.move_cursor == move_cursor "
+                     "&& y.2.lines == x.2.lines && y.2.alignment == x.2.alignment)"),
+                    ("C05-limiter-untouched", "final(self).limiter() == old(self).limiter()")]),
+        Fn("src/progress_bar.rs", "ProgressBar", "set_draw_target", sig_rewrites=[K.SELF_MUT],
+           rewrites=[Rw("R2", r"let mut state = self\.state\(\);", "let state = &mut self.state;")],
+           ensures=[("C06-new-target-installed", "final(self).state.draw_target == target", ["C06"]),
+                    ("C06-C07-logical-state-kept", "rest_same(old(self).state, final(self).state) && final(self).pos == old(self).pos", ["C06", "C07"])]),
         Fn("src/progress_bar.rs", "ProgressBar", "force_draw", sig_rewrites=[K.SELF_MUT],
            rewrites=[Rw("R2", r"self\.state\(\)", "self.state", count=1)],
            requires=[("target-wf", "old(self).state.draw_target.wf2()")],
